@@ -275,6 +275,211 @@ pub proof fn lemma_cycle(n: int, p: int)
     assert(b + t == 3);
 }
 
+// ---- opaque model of the abbreviation storage (ABBREV: AsRef<str>) ----
+#[verifier::external_body]
+#[derive(Clone, Copy, Debug)]
+pub struct Abbrev { _p: () }
+impl Abbrev {
+    pub uninterp spec fn text(&self) -> Seq<char>;
+    #[verifier::external_body]
+    pub fn as_ref(&self) -> (r: &str) ensures r@ == self.text() { unimplemented!() }
+}
+// ---- include lib/dtorder.vrs ----
+// Order of civil datetimes (IDateTime) and its embedding into the integers.  Spec-only: no code from jiff.
+// `cmp_spec` is the lexicographic order generated for the derived PartialOrd (extractor rule R10); the lemmas
+// below show once and for all that on well-formed values it is the order of (rd, ns_of_day), i.e. of the
+// nanosecond key, and that the key is injective.
+pub open spec fn dt_wf(dt: IDateTime) -> bool { dt.date.wf() && dt.time.wf() }
+/// wall-clock seconds since 1970-01-01T00:00:00 (sub-second part dropped)
+pub open spec fn loc(dt: IDateTime) -> int {
+    dt.date.rd() * 86400 + dt.time.hour * 3600 + dt.time.minute * 60 + dt.time.second
+}
+/// wall-clock nanoseconds since 1970-01-01T00:00:00
+pub open spec fn key(dt: IDateTime) -> int { dt.date.rd() * 86_400_000_000_000 + dt.time.ns_of_day() }
+pub open spec fn dt_le(a: IDateTime, b: IDateTime) -> bool { a.cmp_spec(b) <= 0 }
+pub open spec fn dt_lt(a: IDateTime, b: IDateTime) -> bool { a.cmp_spec(b) < 0 }
+
+pub proof fn lemma_date_order(a: IDate, b: IDate)
+    requires a.wf(), b.wf(),
+    ensures (a.cmp_spec(b) < 0) == (a.rd() < b.rd()), (a.cmp_spec(b) == 0) == (a.rd() == b.rd()),
+            (a.cmp_spec(b) == 0) == (a == b), -1 <= a.cmp_spec(b) <= 1,
+{
+    let (y1, m1, d1) = (a.year as int, a.month as int, a.day as int);
+    let (y2, m2, d2) = (b.year as int, b.month as int, b.day as int);
+    if y1 < y2 || (y1 == y2 && (m1 < m2 || (m1 == m2 && d1 < d2))) { lemma_rd_mono(y1, m1, d1, y2, m2, d2); }
+    else if y2 < y1 || (y1 == y2 && (m2 < m1 || (m1 == m2 && d2 < d1))) { lemma_rd_mono(y2, m2, d2, y1, m1, d1); }
+}
+pub proof fn lemma_time_order(a: ITime, b: ITime)
+    requires a.wf(), b.wf(),
+    ensures (a.cmp_spec(b) < 0) == (a.ns_of_day() < b.ns_of_day()), (a.cmp_spec(b) == 0) == (a.ns_of_day() == b.ns_of_day()),
+            (a.cmp_spec(b) == 0) == (a == b), -1 <= a.cmp_spec(b) <= 1,
+            0 <= a.ns_of_day() < 86_400_000_000_000,
+{}
+pub proof fn lemma_dt_order(a: IDateTime, b: IDateTime)
+    requires dt_wf(a), dt_wf(b),
+    ensures dt_lt(a, b) == (key(a) < key(b)), dt_le(a, b) == (key(a) <= key(b)),
+            (a.cmp_spec(b) == 0) == (key(a) == key(b)), (key(a) == key(b)) == (a == b),
+            dt_lt(a, b) == !dt_le(b, a), (a.cmp_spec(b) > 0) == dt_lt(b, a),
+{
+    lemma_date_order(a.date, b.date);
+    lemma_time_order(a.time, b.time);
+    lemma_time_order(b.time, a.time);
+}
+pub proof fn lemma_key_loc(a: IDateTime)
+    requires dt_wf(a),
+    ensures key(a) == loc(a) * 1_000_000_000 + a.time.subsec_nanosecond,
+            0 <= a.time.subsec_nanosecond <= 999_999_999,
+            0 <= a.time.hour * 3600 + a.time.minute * 60 + a.time.second < 86400,
+{}
+
+// ---- std specs Verus lacks (trusted) ----
+pub assume_specification<T, P: FnOnce(&T) -> bool>[ Option::<T>::filter ](o: Option<T>, p: P) -> (r: Option<T>)
+    requires o is Some ==> p.requires((&o->0,)),
+    ensures o is None ==> r is None,
+            o is Some ==> (exists|b: bool| p.ensures((&o->0,), b) && (if b { r == o } else { r is None }));
+// ---- DST interval of one year (C03): exact specs of DstInfo::in_dst / ordered over the derived order ----
+pub open spec fn in_dst_spec(s: IDateTime, e: IDateTime, dt: IDateTime) -> bool {
+    if dt_le(s, e) { dt_le(s, dt) && dt_lt(dt, e) } else { !(dt_le(e, dt) && dt_lt(dt, s)) }
+}
+// ---- type invariants (established by the parser; preconditions here) ----
+impl PosixOffset { pub open spec fn wf(&self) -> bool { -93599 <= self.second <= 93599 } }
+impl PosixTime { pub open spec fn wf(&self) -> bool { -604799 <= self.second <= 604799 } }
+/// ISO weekday (1 = Monday .. 7 = Sunday) of a POSIX weekday (0 = Sunday .. 6 = Saturday)
+pub open spec fn iso_of_posix_wd(w: int) -> int { if w == 0 { 7 } else { w } }
+impl PosixDay {
+    pub open spec fn wf(&self) -> bool {
+        match *self {
+            PosixDay::JulianOne(n) => 1 <= n <= 365,
+            PosixDay::JulianZero(n) => 0 <= n <= 365,
+            PosixDay::WeekdayOfMonth { month, week, weekday } => 1 <= month <= 12 && 1 <= week <= 5 && 0 <= weekday <= 6,
+        }
+    }
+    /// C03: the day (as a day number) a POSIX date rule designates in year y; None: the rule names no day of that year
+    pub open spec fn spec_rd(&self, y: int) -> Option<int> {
+        match *self {
+            // Jn: n-th day of the year, February 29 never counted
+            PosixDay::JulianOne(n) => Some(rd(y, 1, 1) + n - 1 + (if n >= 60 && is_leap(y) { 1int } else { 0int })),
+            // n: zero-based day of the year, February 29 counted
+            PosixDay::JulianZero(n) => if n + 1 <= diy(y) { Some(rd(y, 1, 1) + n) } else { None },
+            // Mm.w.d: the w-th weekday d of month m, w = 5 meaning the last one
+            PosixDay::WeekdayOfMonth { month, week, weekday } => {
+                let w = iso_of_posix_wd(weekday as int);
+                Some(rd(y, month as int, if week == 5 { nth_last_day(y, month as int, w) } else { nth_first_day(y, month as int, w) + (week - 1) * 7 }))
+            }
+        }
+    }
+}
+/// two days of one month less than a week apart with the same weekday are the same day
+pub proof fn lemma_wd_unique(y: int, m: int, d1: int, d2: int)
+    requires wd(rd(y, m, d1)) == wd(rd(y, m, d2)), -7 < d1 - d2 < 7,
+    ensures d1 == d2,
+{}
+/// the day found by nth_weekday_of_month is the closed form used in PosixDay::spec_rd
+pub proof fn lemma_mwd(y: int, m: int, w: int, nth: int, d: int)
+    requires 1 <= m <= 12, 1 <= w <= 7, wd(rd(y, m, d)) == w,
+             nth > 0 ==> (nth - 1) * 7 < d <= nth * 7,
+             nth < 0 ==> (-nth - 1) * 7 <= dim(y, m) - d < -nth * 7,
+    ensures nth > 0 ==> d == nth_first_day(y, m, w) + (nth - 1) * 7,
+            nth == -1 ==> d == nth_last_day(y, m, w),
+{
+    if nth > 0 { lemma_nth_day(y, m, w, nth - 1); lemma_wd_unique(y, m, d, nth_first_day(y, m, w) + (nth - 1) * 7); }
+    if nth == -1 { lemma_nth_day(y, m, w, 0); lemma_wd_unique(y, m, d, nth_last_day(y, m, w)); }
+}
+// ---- a rule's transition in one year (C03) ----
+/// first and last representable instant of civil year y
+pub open spec fn year_first(y: i16) -> IDateTime {
+    IDateTime { date: IDate { year: y, month: 1, day: 1 }, time: ITime { hour: 0, minute: 0, second: 0, subsec_nanosecond: 0 } }
+}
+pub open spec fn year_last(y: i16) -> IDateTime {
+    IDateTime { date: IDate { year: y, month: 12, day: 31 }, time: ITime { hour: 23, minute: 59, second: 59, subsec_nanosecond: 999_999_999 } }
+}
+/// wall-clock seconds of y-01-01T00:00:00 and of (y+1)-01-01T00:00:00
+pub open spec fn year_lo(y: int) -> int { rd(y, 1, 1) * 86400 }
+pub open spec fn year_hi(y: int) -> int { rd(y + 1, 1, 1) * 86400 }
+/// the civil datetime with a given nanosecond key (unique: lemma_dt_of_key)
+pub open spec fn dt_of_key(k: int) -> IDateTime { choose|r: IDateTime| dt_wf(r) && key(r) == k }
+pub proof fn lemma_dt_of_key(r: IDateTime)
+    requires dt_wf(r),
+    ensures dt_of_key(key(r)) == r,
+{
+    let c = dt_of_key(key(r));
+    assert(dt_wf(c) && key(c) == key(r));
+    lemma_dt_order(c, r);
+}
+impl PosixDayTime {
+    pub open spec fn wf(&self) -> bool { self.date.wf() && self.time.wf() }
+    /// nominal transition: wall-clock seconds of (date rule in year y at 00:00) + time - offset; None: no such day in y
+    pub open spec fn spec_loc(&self, y: int, off: int) -> Option<int> {
+        match self.date.spec_rd(y) { Some(d) => Some(d * 86400 + self.time.second - off), None => None }
+    }
+    /// nanosecond key of the transition reported for year y: the nominal one if it falls inside year y,
+    /// otherwise clamped to the first/last instant of year y (last also when the rule names no day of y)
+    pub open spec fn spec_key(&self, y: int, off: int) -> int {
+        match self.spec_loc(y, off) {
+            None => year_hi(y) * 1_000_000_000 - 1,
+            Some(t) => if t < year_lo(y) { year_lo(y) * 1_000_000_000 } else if t >= year_hi(y) { year_hi(y) * 1_000_000_000 - 1 } else { t * 1_000_000_000 },
+        }
+    }
+    pub open spec fn spec_datetime(&self, y: i16, off: int) -> IDateTime { dt_of_key(self.spec_key(y as int, off)) }
+}
+pub proof fn lemma_year_ends(y: i16)
+    requires -9999 <= y <= 9999,
+    ensures dt_wf(year_first(y)), dt_wf(year_last(y)),
+            key(year_first(y)) == year_lo(y as int) * 1_000_000_000, key(year_last(y)) == year_hi(y as int) * 1_000_000_000 - 1,
+            dt_of_key(year_lo(y as int) * 1_000_000_000) == year_first(y), dt_of_key(year_hi(y as int) * 1_000_000_000 - 1) == year_last(y),
+            -4371587 <= rd(y as int, 1, 1), rd(y as int + 1, 1, 1) <= 2932897, rd(y as int, 1, 1) < rd(y as int + 1, 1, 1),
+{
+    lemma_rd_bounds(y as int, 1, 1);
+    lemma_rd_bounds(y as int, 12, 31);
+    lemma_rd_succ(y as int, 12, 31);
+    lemma_rd_year(y as int);
+    lemma_dt_of_key(year_first(y));
+    lemma_dt_of_key(year_last(y));
+}
+/// a date of an earlier/later/the same year lies before/after/inside that year
+pub proof fn lemma_date_vs_year(d: IDate, y: int)
+    requires d.wf(),
+    ensures d.year < y ==> d.rd() < rd(y, 1, 1),
+            d.year > y ==> d.rd() >= rd(y + 1, 1, 1),
+            d.year == y ==> rd(y, 1, 1) <= d.rd() < rd(y + 1, 1, 1),
+{
+    let dy = d.year as int;
+    lemma_year_of_rd(dy, d.month as int, d.day as int);
+    if dy < y { lemma_rd_year_mono(dy + 1, y); }
+    if dy > y { lemma_rd_year_mono(y + 1, dy); }
+}
+// ---- the zone (C03) ----
+impl PosixDst {
+    pub open spec fn wf(&self) -> bool { self.offset.wf() && self.rule.start.wf() && self.rule.end.wf() }
+}
+/// type invariant of ITimestamp values handed out by jiff::Timestamp (range, normalised sign)
+pub open spec fn ts_wf(ts: ITimestamp) -> bool {
+    -377705023201 <= ts.second <= 253402207200 && -999_999_999 <= ts.nanosecond <= 999_999_999
+    && !(ts.second > 0 && ts.nanosecond < 0) && !(ts.second < 0 && ts.nanosecond > 0)
+    && !(ts.second == -377705023201 && ts.nanosecond < 0)
+}
+/// the instant in nanoseconds since the epoch, and its civil datetime in UTC
+pub open spec fn ts_key(ts: ITimestamp) -> int { ts.second * 1_000_000_000 + ts.nanosecond }
+pub open spec fn utc_dt(ts: ITimestamp) -> IDateTime { dt_of_key(ts_key(ts)) }
+impl PosixTimeZone {
+    pub open spec fn wf(&self) -> bool { self.std_offset.wf() && (self.dst is Some ==> self.dst->0.wf()) }
+    /// DST start/end of year y as UTC civil datetimes: start is given in standard time, end in DST time
+    pub open spec fn utc_start(&self, y: i16) -> IDateTime { self.dst->0.rule.start.spec_datetime(y, self.std_offset.second as int) }
+    pub open spec fn utc_end(&self, y: i16) -> IDateTime { self.dst->0.rule.end.spec_datetime(y, self.dst->0.offset.second as int) }
+    /// the same on the wall clock
+    pub open spec fn wall_start(&self, y: i16) -> IDateTime { self.dst->0.rule.start.spec_datetime(y, 0) }
+    pub open spec fn wall_end(&self, y: i16) -> IDateTime { self.dst->0.rule.end.spec_datetime(y, 0) }
+    /// C03: DST is in force at instant ts iff the zone has a rule and the UTC civil datetime of ts lies in the
+    /// DST interval of its own UTC year
+    pub open spec fn dst_at(&self, ts: ITimestamp) -> bool {
+        self.dst is Some && in_dst_spec(self.utc_start(utc_dt(ts).date.year), self.utc_end(utc_dt(ts).date.year), utc_dt(ts))
+    }
+    pub open spec fn offset_of(&self, dst: bool) -> int { if dst { self.dst->0.offset.second as int } else { self.std_offset.second as int } }
+    pub open spec fn abbrev_of(&self, dst: bool) -> Seq<char> { if dst { self.dst->0.abbrev.text() } else { self.std_abbrev.text() } }
+}
+pub open spec fn ordered_spec(s: IDateTime, e: IDateTime) -> (IDateTime, IDateTime) {
+    if dt_le(s, e) { (s, e) } else { (e, s) }
+}
 
 // ==== extracted from /repo ====
 #[derive(Clone, Copy, Debug, Eq, PartialEq, Structural)]
@@ -1364,6 +1569,371 @@ pub const fn days_in_month(year: i16, month: i8) -> (r: i8)
         }
     } else {
         30 | (month ^ month >> 3)
+    }
+}
+
+#[derive(Clone, Copy, Debug)] pub struct PosixTimeZone {
+    pub std_abbrev: Abbrev,
+    pub std_offset: PosixOffset,
+    pub dst: Option<PosixDst>,
+}
+
+#[derive(Clone, Copy, Debug)] pub struct PosixDst {
+    pub abbrev: Abbrev,
+    pub offset: PosixOffset,
+    pub rule: PosixRule,
+}
+
+#[derive(Clone, Copy, Debug, Eq, PartialEq, Structural)]
+pub struct PosixRule {
+    pub start: PosixDayTime,
+    pub end: PosixDayTime,
+}
+
+#[derive(Clone, Copy, Debug, Eq, PartialEq, Structural)]
+pub struct PosixDayTime {
+    pub date: PosixDay,
+    pub time: PosixTime,
+}
+
+#[derive(Clone, Copy, Debug, Eq, PartialEq, Structural)]
+pub enum PosixDay {
+    
+    
+    
+    JulianOne(i16),
+    
+    
+    
+    JulianZero(i16),
+    
+    WeekdayOfMonth {
+        
+        
+        
+        month: i8,
+        
+        
+        
+        
+        
+        
+        
+        
+        week: i8,
+        
+        
+        
+        weekday: i8,
+    },
+}
+
+#[derive(Clone, Copy, Debug, Eq, PartialEq, Structural)]
+pub struct PosixTime {
+    pub second: i32,
+}
+
+#[derive(Clone, Copy, Debug, Eq, PartialEq, Structural)]
+pub struct PosixOffset {
+    pub second: i32,
+}
+
+#[derive(Debug)] pub struct DstInfo<'a> {
+    
+    pub dst: &'a PosixDst,
+    
+    
+    
+    
+    
+    
+    
+    
+    pub start: IDateTime,
+    
+    
+    
+    
+    
+    
+    
+    
+    pub end: IDateTime,
+}
+
+impl PosixOffset {
+// @fn PosixOffset::to_ioffset @src src/shared/posix.rs:476
+pub fn to_ioffset(&self) -> (r: IOffset)
+    ensures
+        r.second == self.second,
+{
+        IOffset { second: self.second }
+    }
+}
+
+impl<'a> DstInfo<'a> {
+// @fn DstInfo::in_dst @src src/shared/posix.rs:551
+pub fn in_dst(&self, utc_dt: IDateTime) -> (r: bool)
+    ensures
+        r == in_dst_spec(self.start, self.end, utc_dt),
+{
+        if self.start <= self.end {
+            self.start <= utc_dt && utc_dt < self.end
+        } else {
+            !(self.end <= utc_dt && utc_dt < self.start)
+        }
+    }
+}
+
+impl<'a> DstInfo<'a> {
+// @fn DstInfo::ordered @src src/shared/posix.rs:560
+pub fn ordered(&self) -> (r: (IDateTime, IDateTime))
+    ensures
+        r == ordered_spec(self.start, self.end),
+{
+        if self.start <= self.end {
+            (self.start, self.end)
+        } else {
+            (self.end, self.start)
+        }
+    }
+}
+
+impl<'a> DstInfo<'a> {
+// @fn DstInfo::offset @src src/shared/posix.rs:569
+pub fn offset(&self) -> (r: &PosixOffset)
+    ensures
+        *r == self.dst.offset,
+{
+        &self.dst.offset
+    }
+}
+
+impl PosixDay {
+// @fn PosixDay::to_date @src src/shared/posix.rs:385
+pub fn to_date(&self, year: i16) -> (r: Option<IDate>)
+    requires
+        self.wf(), -9999 <= year <= 9999,
+    ensures
+        match r {
+        Some(d) => d.wf() && d.year == year && self.spec_rd(year as int) == Some(d.rd()),
+        None => self.spec_rd(year as int) is None,
+    },
+    // Jn never yields February 29
+    self is JulianOne ==> r is Some && !(r->0.month == 2 && r->0.day == 29),
+    // Mm.w.d: in that month, on that weekday, and it is the w-th one (w = 5: the last one)
+    match *self {
+        PosixDay::WeekdayOfMonth { month, week, weekday } => r is Some && r->0.month == month
+            && wd(r->0.rd()) == iso_of_posix_wd(weekday as int)
+            && (week <= 4 ==> (week - 1) * 7 < r->0.day <= week * 7)
+            && (week == 5 ==> dim(year as int, month as int) - 7 < r->0.day <= dim(year as int, month as int)),
+        _ => true,
+    },
+{
+        match *self {
+            PosixDay::JulianOne(day) => {
+                
+                
+                
+                Some(
+                    IDate::from_day_of_year_no_leap(year, day)
+                        .expect("Julian `J day` should be in bounds"),
+                )
+            }
+            PosixDay::JulianZero(day) => {
+                
+                
+                
+                
+                
+                
+                
+                
+                
+                IDate::from_day_of_year(year, day + 1).ok()
+            }
+            PosixDay::WeekdayOfMonth { month, week, weekday } => {
+                let weekday = IWeekday::from_sunday_zero_offset(weekday);
+                let first = IDate { year, month, day: 1 };
+                let week = if week == 5 { -1 } else { week };
+                proof {
+                    lemma_nth_day(year as int, month as int, weekday.offset as int, if week > 0 { week as int - 1 } else { 0 });
+                }
+
+                { let verif_da: bool = week == -1 || (1..=4).contains(&week); assert(verif_da); };
+                
+                
+                
+                
+                
+                
+                
+                
+                
+                
+                
+                
+                
+                
+                { let verif_d = first.nth_weekday_of_month(week, weekday).expect("nth weekday always exists"); proof { lemma_mwd(year as int, month as int, weekday.offset as int, week as int, verif_d.day as int); } Some(verif_d) }
+            }
+        }
+    }
+}
+
+impl PosixDayTime {
+// @fn PosixDayTime::to_datetime @src src/shared/posix.rs:333
+pub fn to_datetime(&self, year: i16, offset: IOffset) -> (r: IDateTime)
+    requires
+        self.wf(), -9999 <= year <= 9999, -93599 <= offset.second <= 93599,
+    ensures
+        dt_wf(r), r.date.year == year,
+    match self.spec_loc(year as int, offset.second as int) {
+        // the nominal transition, when it falls inside the year ...
+        Some(t) => if t < year_lo(year as int) { r == year_first(year) }
+                   else if t >= year_hi(year as int) { r == year_last(year) }
+                   else { loc(r) == t && r.time.subsec_nanosecond == 0 },
+        // ... else clamped to the year (also when the rule names no day of this year)
+        None => r == year_last(year),
+    },
+    r == self.spec_datetime(year, offset.second as int),
+{
+        proof { lemma_year_ends(year); }
+
+        let mkmin = || -> (m: IDateTime) ensures m == year_first(year) { IDateTime {
+            date: IDate { year, month: 1, day: 1 },
+            time: ITime::MIN,
+        } };
+        let mkmax = || -> (m: IDateTime) ensures m == year_last(year) { IDateTime {
+            date: IDate { year, month: 12, day: 31 },
+            time: ITime::MAX,
+        } };
+        let Some(date) = self.date.to_date(year) else { return mkmax() };
+        
+        
+        
+        let offset = self.time.second - offset.second;
+        
+        
+        let days = offset.div_euclid(86400);
+        let ghost verif_rd0 = date.rd();
+
+        let second = offset.rem_euclid(86400);
+
+        let Ok(date) = date.checked_add_days(days) else {
+            return if offset < 0 { mkmin() } else { mkmax() };
+        };
+        proof { lemma_date_vs_year(date, year as int); }
+
+        if date.year < year {
+            mkmin()
+        } else if date.year > year {
+            mkmax()
+        } else {
+            let time = ITimeSecond { second }.to_time();
+        proof { lemma_key_loc(IDateTime { date, time }); lemma_dt_of_key(IDateTime { date, time }); }
+
+            IDateTime { date, time }
+        }
+    }
+}
+
+impl PosixTimeZone {
+// @fn PosixTimeZone::dst_info_utc @src src/shared/posix.rs:246
+pub fn dst_info_utc(&self, year: i16) -> (r: Option<DstInfo<'_>>)
+    requires
+        self.wf(), -9999 <= year <= 9999,
+    ensures
+        r is Some <==> self.dst is Some,
+    r is Some ==> *r->0.dst == self.dst->0 && r->0.start == self.utc_start(year) && r->0.end == self.utc_end(year)
+        && dt_wf(r->0.start) && dt_wf(r->0.end) && r->0.start.date.year == year && r->0.end.date.year == year,
+{
+        let dst = self.dst.as_ref()?;
+        
+        
+        let start =
+            dst.rule.start.to_datetime(year, self.std_offset.to_ioffset());
+        
+        
+        let end = dst.rule.end.to_datetime(year, dst.offset.to_ioffset());
+        Some(DstInfo { dst, start, end })
+    }
+}
+
+impl PosixTimeZone {
+// @fn PosixTimeZone::dst_info_wall @src src/shared/posix.rs:263
+pub fn dst_info_wall(&self, year: i16) -> (r: Option<DstInfo<'_>>)
+    requires
+        self.wf(), -9999 <= year <= 9999,
+    ensures
+        r is Some <==> self.dst is Some,
+    r is Some ==> *r->0.dst == self.dst->0 && r->0.start == self.wall_start(year) && r->0.end == self.wall_end(year)
+        && dt_wf(r->0.start) && dt_wf(r->0.end) && r->0.start.date.year == year && r->0.end.date.year == year,
+{
+        let dst = self.dst.as_ref()?;
+        
+        
+        
+        let start = dst.rule.start.to_datetime(year, IOffset::UTC);
+        let end = dst.rule.end.to_datetime(year, IOffset::UTC);
+        Some(DstInfo { dst, start, end })
+    }
+}
+
+impl PosixTimeZone {
+// @fn PosixTimeZone::to_offset @src src/shared/posix.rs:50
+pub fn to_offset(&self, timestamp: ITimestamp) -> (r: IOffset)
+    requires
+        self.wf(), ts_wf(timestamp),
+    ensures
+        r.second == self.offset_of(self.dst_at(timestamp)),
+{
+        let std_offset = self.std_offset.to_ioffset();
+        if self.dst.is_none() {
+            return std_offset;
+        }
+
+        let dt = timestamp.to_datetime(IOffset::UTC);
+        proof { lemma_dt_of_key(dt); } assert(false);
+
+        self.dst_info_utc(dt.date.year)
+            .filter(|dst_info: &DstInfo<'_>| -> (b: bool) ensures b == in_dst_spec(dst_info.start, dst_info.end, dt) { dst_info.in_dst(dt) })
+            .map(|dst_info: DstInfo<'_>| -> (o: IOffset) ensures o.second == dst_info.dst.offset.second { dst_info.offset().to_ioffset() })
+            .unwrap_or_else(|| -> (o: IOffset) ensures o == std_offset { std_offset })
+    }
+}
+
+impl PosixTimeZone {
+// @fn PosixTimeZone::to_offset_info @src src/shared/posix.rs:69
+pub fn to_offset_info(
+        &self,
+        timestamp: ITimestamp,
+    ) -> (r: (IOffset, &'_ str, bool))
+    requires
+        self.wf(), ts_wf(timestamp),
+    ensures
+        r.2 == self.dst_at(timestamp),
+    r.0.second == self.offset_of(self.dst_at(timestamp)),
+    r.1@ == self.abbrev_of(self.dst_at(timestamp)),
+{
+        let std_offset = self.std_offset.to_ioffset();
+        if self.dst.is_none() {
+            return (std_offset, self.std_abbrev.as_ref(), false);
+        }
+
+        let dt = timestamp.to_datetime(IOffset::UTC);
+        proof { lemma_dt_of_key(dt); } assert(false);
+
+        self.dst_info_utc(dt.date.year)
+            .filter(|dst_info: &DstInfo<'_>| -> (b: bool) ensures b == in_dst_spec(dst_info.start, dst_info.end, dt) { dst_info.in_dst(dt) })
+            .map(|dst_info: DstInfo<'_>| -> (o: (IOffset, &str, bool)) ensures o.0.second == dst_info.dst.offset.second, o.1@ == dst_info.dst.abbrev.text(), o.2 == true {
+                (
+                    dst_info.offset().to_ioffset(),
+                    dst_info.dst.abbrev.as_ref(),
+                    true,
+                )
+            })
+            .unwrap_or_else(|| -> (o: (IOffset, &str, bool)) ensures o.0 == std_offset, o.1@ == self.std_abbrev.text(), o.2 == false { (std_offset, self.std_abbrev.as_ref(), false) })
     }
 }
 
